@@ -78,6 +78,16 @@ MUTANTS = [
      "        that the result will end up in\n    \"\"\"\n    _ns = threading.local()\n",
      "        that the result will end up in\n    \"\"\"\n    _ns = type('NS', (), {})()\n",
      'array-formula context stack shared by all threads'),
+    ('M27', 'C07', 'excelutil.py',
+     "def uniqueify(seq):\n    seen = set()\n    return tuple(x for x in seq if x not in seen and not seen.add(x))\n",
+     "_SEEN = set()\n\n\ndef uniqueify(seq):\n    seen = _SEEN\n    seen.clear()\n    return tuple(x for x in seq if x not in seen and not seen.add(x))\n",
+     'scratch set of a leaf helper made module-global: visible only when a thread is pre-empted '
+     'inside the helper (line granularity)'),
+    ('M28', 'C07', 'excellib.py',
+     "    # ignore non numeric cells\n    args = tuple(flatten(args))\n",
+     "    # ignore non numeric cells\n    buf = _numerics.__dict__.setdefault('buf', [])\n    buf[:] = flatten(args)\n    args = tuple(buf)\n",
+     'SUM & co collect their arguments in a module-global buffer: two threads inside the '
+     'helper at once (line granularity)'),
     ('M14', 'C08', 'excelcompiler.py',
      "                    if child_address in needed_cells or ':' in child_address:\n",
      "                    if child_address in needed_cells and ':' not in child_address:\n",
@@ -157,7 +167,9 @@ def _digests(prop_id, n, workers, hashseed, reverse):
         "import sys, json\n"
         "from sim import core, refmodel\n"
         "refmodel.quiet()\n"
-        f"items=[(i, core.run_seed('{prop_id}', i, 1)) for i in range({n})]\n"
+        f"runs = core.load_prop('{prop_id}').budget('quick')['runs']\n"
+        f"idx = sorted(set(list(range({n} // 2)) + [(i * runs) // {n} for i in range({n})]))\n"
+        f"items=[(i, core.run_seed('{prop_id}', i, 1)) for i in idx]\n"
         f"items = items[::-1] if {reverse} else items\n"
         f"res = core.run_pool('{prop_id}', 'quick', items, {workers})\n"
         "print(json.dumps({str(r['index']): r.get('digest') for r in res}))\n")
